@@ -30,7 +30,7 @@ theorem gen_allowed_ext_chars : Gen.allowedExt_write.map String.toList = [mdS, o
 theorem gen_stages :
     (∀ e ∈ Gen.stageOrder, e.2 = ["dotdot", "symlink", "ext"] ∨ e.2 = ["symlink", "dotdot", "ext"]) ∧
     Gen.stageOrder.map (·.1) = ["write", "validate", "fileops"] ∧
-    (∀ e ∈ Gen.dotdotTests, e.2 = "any((part == '..' for part in path.parts))") ∧
+    (∀ e ∈ Gen.dotdotTests, e.2 = "some part of path.parts equals '..'") ∧
     (∀ e ∈ Gen.extTests, e.2 = ["path.suffix not in ALLOWED_EXTENSIONS",
         "compound_suffix = ''.join(path.suffixes[-2:]) if len(path.suffixes) >= 2 else path.suffix",
         "compound_suffix not in ALLOWED_EXTENSIONS"]) := by decide
